@@ -116,7 +116,7 @@ pub const FAMILIES: [&str; 12] = [
     "list-type", "object-value", "list-value", "merge-depth", "var-deep",
 ];
 
-fn family(name: &str, n: usize) -> (String, String) {
+pub fn family(name: &str, n: usize) -> (String, String) {
     let mut s = String::new();
     let mut d = String::new();
     match name {
